@@ -911,7 +911,9 @@ func (g *Generator) NextBlock(h int64) BlockStep {
 			st.Faults = append(st.Faults, Fault{Kind: "lag", Replica: ri})
 		}
 	}
-	if g.enumLeft > 0 && h >= 4 && (nt > 0 || g.r.Chance(0.3)) && g.r.Chance(0.5) {
+	// (block 1 included now and then: a crash before the first commit loses the genesis state held in memory,
+	// the engine must initialise the chain again)
+	if g.enumLeft > 0 && (h >= 4 || g.r.Chance(0.15)) && (nt > 0 || g.r.Chance(0.3)) && g.r.Chance(0.5) {
 		g.enumLeft--
 		replayPts := []string{"bb", "eb", "commit.pre", "commit.post", "cw:13"}
 		if npl > 0 {
